@@ -598,9 +598,19 @@ func parseMonthName(parts []string, monthPos int) (string, error) {
 	return CleanSpace(monthName), nil
 }
 
+// dateWordsPattern escapes the dots in the words (like "Abt.") so that they
+// only match a literal dot rather than any character.
+func dateWordsPattern(words string) string {
+	return strings.Replace(words, ".", `\.`, -1)
+}
+
+// The keyword (if any) must be a whole word. That is, it is followed by a
+// space. Otherwise "after 1900" would be read as "aft" and the month "er".
 var dateRegexp = regexp.MustCompile(
-	fmt.Sprintf(`(?i)^(%s|%s|%s)? ?(\d+ )?(\w+ )?(\d+)$`,
-		DateWordsAbout, DateWordsBefore, DateWordsAfter))
+	fmt.Sprintf(`(?i)^(?:(%s|%s|%s) )?(\d+ )?(\w+ )?(\d+)$`,
+		dateWordsPattern(DateWordsAbout),
+		dateWordsPattern(DateWordsBefore),
+		dateWordsPattern(DateWordsAfter)))
 
 func parseDateParts(dateString string, isEndOfRange bool) Date {
 	parts := dateRegexp.FindStringSubmatch(dateString)
